@@ -479,8 +479,20 @@ def parseOptionsHeader (value : Str) : Except String (Str × Dict Str) := do
 
 /-! ### sets -/
 
-/-- `parse_set_header(value)`: the `_headers` list of the resulting `HeaderSet` -/
+/-- `parse_set_header(value)`: the list it hands to the `HeaderSet` constructor -/
 def parseSetHeader (s : Str) : List Str := if s.isEmpty then [] else parseListHeader s
+
+/-- the loop of the `HeaderSet` constructor (as repaired, F08c: the same loop as `update`): a header
+given in two spellings is kept once, in its first spelling; `seen` = the lower-cased members so far -/
+def hsDedupGo (seen : List Str) : List Str → List Str
+  | [] => []
+  | h :: t => if seen.contains (pyLower h) then hsDedupGo seen t else h :: hsDedupGo (pyLower h :: seen) t
+
+/-- `list(HeaderSet(items))`: the `_headers` of the constructed object -/
+def headerSetMembers (items : List Str) : List Str := hsDedupGo [] items
+
+/-- `list(parse_set_header(value))` -/
+def parseSetMembers (s : Str) : List Str := headerSetMembers (parseSetHeader s)
 
 /-- `HeaderSet.to_header()` over its `_headers` list -/
 def headerSetToHeader (items : List Str) : Str := join ", " (items.map (quoteHeaderValue ·))
@@ -1038,6 +1050,6 @@ def getContentLength (contentLength transferEncoding : Option Str) : Except Stri
 
 /-- `Request.access_control_request_headers` = `header_property(..., load_func=parse_set_header)` -/
 def requestAccessControlRequestHeaders (hdr : Option Str) : Except String (Option (List Str)) :=
-  headerProperty (fun v => .ok (some (parseSetHeader v))) none hdr
+  headerProperty (fun v => .ok (some (parseSetMembers v))) none hdr
 
 end Wz.Http
